@@ -105,42 +105,53 @@ CHECKS = {
   tech="Lean 4 `decide` over model data regenerated from the source (translator) + Lean proof of registry "
        "independence + direct-vs-decorated differential in virtual time", ref="§5 C15"),
  "C03": dict(
-  text="Lean machine of BufferAsyncCalls (Buffer/Model.lean: daemon program counter, timed queue read as its own "
-       "state machine, join/flag waiters) with step theorems C03_kept_on_failure (a failed call leaves the round's "
-       "input set untouched), C03_delivered_on_success, addInputs_superset (loading only adds); the machine is tied "
-       "to the real code by a virtual-time differential over random timed programs with every producer kind, "
-       "producer failures at every position, slow producers and failing function invocations; monitor: every "
-       "submitted element reaches exactly one successful call, nothing unsubmitted is delivered, the call after a "
-       "failed one is a superset",
-  note=NOTE_COMMON + "Partial: conservation over whole runs (every submitted element is eventually delivered) is "
-       "validated by the differential and the monitor, not yet a theorem; foreign-thread submission interleavings "
-       "are not explored by this check (single loop thread).",
-  tech="Lean 4 proof (step theorems of the buffer machine) + virtual-time model/implementation differential + "
-       "conservation monitor", ref="§5 Buffer"),
+  text="Lean theorems about the whole buffer machine (Buffer/Model.lean: daemon program counter, timed queue read as "
+       "its own state machine, join/flag waiters), for EVERY fresh buffer, every outcome script of the wrapped "
+       "function and every list of timed inputs without a shutdown (producers of every kind, failing at any "
+       "position, slow; wait(cancel=...)), after every prefix and after draining: C03_conservation(_final) (every "
+       "submitted element is queued | among the next loaders | captured by the timed read | being loaded | in the "
+       "round's input set | delivered by a successful call, and nothing else is ever there), C03_only_submitted "
+       "(stated on the output stream the differential compares), C03_all_delivered_at_rest, from the 21-clause "
+       "machine invariant K (Buffer/Invariant.lean, InvStep.lean: preserved by every zero-time step, timed event "
+       "and input); plus the step theorems C03_kept_on_failure, C03_delivered_on_success, addInputs_superset. Tied "
+       "to BufferAsyncCalls by a virtual-time differential over random timed programs; monitor: every submitted "
+       "element reaches exactly one successful call, nothing unsubmitted is delivered, the call after a failed one "
+       "is a superset",
+  note=NOTE_COMMON + "Partial: 'exactly one' (no element delivered twice) and 'eventually at rest' (termination of "
+       "the retry loop) are decided by the differential and the monitor, not by a theorem; foreign-thread submission "
+       "interleavings are not explored by this check (single loop thread).",
+  tech="Lean 4 proof (inductive invariant of the timed buffer machine over all input programs) + virtual-time "
+       "model/implementation differential + conservation monitor", ref="§7 Buffer"),
  "C07": dict(
-  text="Lean theorems C07_shutdown_partial (cancelling the daemon terminates it in the idle and loading phases) and "
-       "C07_counterexample_shutdown_{timer_armed,function_running,loading_captured} (`decide`d model runs in which "
-       "the cancellation is swallowed and the daemon lives on: the full shutdown clause is false of the code, "
-       "finding F5); barrier and wait-returns are tied to the code by the virtual-time differential (wait(cancel="
-       "True/False) at grid instants, concurrent waiters, empty/failing/slow producers, failing calls) with a "
-       "barrier monitor, and shutdown is exercised asyncio.run-style at instants spread over each program: the "
-       "model's verdict (terminates / hangs, phase) must equal the real loop's",
+  text="Lean theorems about the same machine and invariant: C07_barrier(_prefix) (every wait() that returned - each "
+       "waitRet record of the output stream has its entry, in order - returned only after everything submitted "
+       "before it was called had been an argument of a successful call), C07_blocked_waiter_covered, "
+       "C07_unfinished_exact (q's unfinished count = queued + captured-and-not-yet-loaded), for every program without "
+       "shutdown, any number of concurrent waiters, cancel or not; C07_shutdown_partial (cancelling the daemon "
+       "terminates it in the idle and loading phases) and C07_counterexample_shutdown_{timer_armed,function_running,"
+       "loading_captured} (`decide`d model runs in which the cancellation is swallowed and the daemon lives on: the "
+       "full shutdown clause is false of the code, finding F5). Tie: virtual-time differential (wait(cancel=True/"
+       "False) at grid instants, same-instant submit+wait from one task, concurrent waiters, empty/failing/slow "
+       "producers, failing calls) with a barrier monitor; shutdown is exercised asyncio.run-style at instants spread "
+       "over each program: the model's verdict (terminates / hangs, phase) must equal the real loop's",
   note=NOTE_COMMON + "Known findings (known_findings.json): shutdown hangs in phases timer-armed, function-running, "
-       "loading-captured. Partial: the barrier is validated by differential + monitor, not yet a theorem. "
+       "loading-captured. Partial: 'wait() eventually returns' is differential + hang detector, not a theorem. "
        "Foreign-thread submit-then-wait_from_anywhere interleavings are not explored by this check.",
-  tech="Lean 4 proof (phase theorem + decide counter-examples) + virtual-time differential + barrier monitor + "
-       "shutdown hang detector", ref="§5 Buffer"),
+  tech="Lean 4 proof (inductive invariant: barrier; phase theorem + decide counter-examples for shutdown) + "
+       "virtual-time differential + barrier monitor + shutdown hang detector", ref="§7 Buffer"),
  "C08": dict(
-  text="Lean theorem C08_never_empty (the only step that calls the wrapped function does so with a non-empty set and "
-       "only when no call is in flight); debounce timing (no call while arrivals are < timeout apart, one call at "
-       "last arrival + timeout containing the burst) is tied to the code by the virtual-time differential comparing "
+  text="Lean theorems about the same machine and invariant: C08_serial_nonempty(_prefix) (over the whole output "
+       "stream of every program without shutdown the start/fin records of the wrapped function strictly alternate, "
+       "a call is in flight exactly when the daemon is inside it, and no call ever received an empty set) and the "
+       "step theorem C08_never_empty; debounce timing (no call while arrivals are < timeout apart, one call at last "
+       "arrival + timeout containing the burst) is tied to the code by the virtual-time differential comparing "
        "every call's instant and contents over arrival grids straddling the timeout, with a quiet-period / burst "
        "monitor (no call inside a quiet period, call at last arrival + timeout, burst not split, burst not offered "
        "again after its call succeeded; ties excluded)",
-  note=NOTE_COMMON + "Partial: the quiet-period and burst clauses are validated by differential + monitor, not yet "
-       "theorems.",
-  tech="Lean 4 proof (step theorem) + virtual-time differential on call instants + quiet-period monitor",
-  ref="§5 Buffer"),
+  note=NOTE_COMMON + "Partial: the quiet-period and burst-timing clauses are decided by the differential + monitor, "
+       "not yet by theorems.",
+  tech="Lean 4 proof (inductive invariant: serial, non-empty calls) + virtual-time differential on call instants + "
+       "quiet-period monitor", ref="§7 Buffer"),
  "C12": dict(
   text="Lean refinement proof: the sequential FileLock model (in-process Lock/RLock, nesting counter, one open file "
        "description per acquisition, polling loop in virtual time, clean-up paths; after fixes F3/F9) refines the "
